@@ -24,6 +24,14 @@ CHECKS = [
              "free-coordinate children; random 6-vectors on every corner/edge parameter; displacement) and assemblies are rotated by k*60 deg "
              "with the angle computed three ways and every observable is compared with the rotated original.",
      "note": NOTE},
+    {"property_id": "C19",
+     "technique": "runtime monitoring: exhaustive scan of the live nuclide/element/material registries after the real factory ran + independent identifier encoder",
+     "text": "Exhaustive over what the running program actually holds: every nuclide base x every identifier kind is looked up in the live module-level "
+             "index and must return that very object, identifiers are collected to prove no two nuclides share one, and names/labels/MCNP/AAAZZZS ids are "
+             "re-derived by an independent encoder (own periodic table); every element's membership, abundances and standard weight; every burn-chain entry "
+             "(products exist, branching in [0,1]); every material class is instantiated and density/pseudo-density/expansion scanned over a temperature grid "
+             "across each stated validity range (quick 25, thorough 400 temperatures). Says the tables are self-consistent, not that they are physically right.",
+     "note": NOTE},
 ]
 
 _claimed = {c["property_id"] for c in CHECKS}
